@@ -45,28 +45,31 @@ def run(ctx):
     plist = udp_paths(paths, attacks)
     inp = os.path.join(ctx.work, "c22paths.json")
     vf.write_json(inp, {"paths": plist})
-    r = ctx.gotest("socks5", HF, "^TestZZVUdpReplay$", env={"ZZV_IN": inp}, timeout=1500)
-    summ = (r.of("summary") or [None])[0]
-    if not summ:
-        raise vf.Infra("UDP replay harness produced no summary:\n" + r.out[-3000:])
-    drift = []
-    for mm in r.of("mismatch"):
-        if mm.get("violation"):
-            toks = [t["tok"] for t in mm["trace"]]
-            tr = mm["trace"]
-            dev = mm.get("attack") or S.explain(
-                devrel, S.is_init, toks,
-                lambda e, i: e["a"]["res"] == tr[i]["res"] and list(e["a"]["rep"]) == list(tr[i]["rep"]) and
-                all(e["t"][k] == tr[i]["real_t"][k] for k in ("assoc", "declared", "client", "relayed", "replies")))
-            key = "Socks5:%s:%s" % (dev or "unexplained", SITE.get(dev) or ",".join(sorted(set(mm["bad"]))))
-            req = [t for t in toks if t["t"] == "R"][0]
-            ctx.finding(key, "UDP association (control connection over %s, declared address: %s): %s; arrival order %s; "
-                             "final state %s" % (
-                "WebSocket" if toks[0]["t"] == "WS" else "TCP", req.get("addr"), ", ".join(mm["bad"]),
-                [(t["tok"].get("s") or t["tok"]["t"]) + ("/" + t["tok"]["k"] if t["tok"].get("k") == "bad" else "")
-                 for t in mm["trace"] if t["tok"]["t"] in ("DG", "MR", "EOF")], vf.canon(mm["trace"][-1]["real_t"])), mm)
-        else:
-            drift.append(mm)
+    drift, summs = [], []
+    # two listeners: tcp4 loopback, and the dual-stack wildcard (peer address in IPv4-mapped form, seeded/C22-s4)
+    for lmode in ("0", "1"):
+        r = ctx.gotest("socks5", HF, "^TestZZVUdpReplay$", env={"ZZV_IN": inp, "ZZV_LISTEN_ANY": lmode}, timeout=1500)
+        summ = (r.of("summary") or [None])[0]
+        if not summ:
+            raise vf.Infra("UDP replay harness produced no summary:\n" + r.out[-3000:])
+        summs.append(summ)
+        for mm in r.of("mismatch"):
+            if mm.get("violation"):
+                toks = [t["tok"] for t in mm["trace"]]
+                tr = mm["trace"]
+                dev = mm.get("attack") or S.explain(
+                    devrel, S.is_init, toks,
+                    lambda e, i: e["a"]["res"] == tr[i]["res"] and list(e["a"]["rep"]) == list(tr[i]["rep"]) and
+                    all(e["t"][k] == tr[i]["real_t"][k] for k in ("assoc", "declared", "client", "relayed", "replies")))
+                key = "Socks5:%s:%s" % (dev or "unexplained", SITE.get(dev) or ",".join(sorted(set(mm["bad"]))))
+                req = [t for t in toks if t["t"] == "R"][0]
+                ctx.finding(key, "UDP association (control connection over %s, declared address: %s): %s; arrival order %s; "
+                                 "final state %s" % (
+                    "WebSocket" if toks[0]["t"] == "WS" else "TCP", req.get("addr"), ", ".join(mm["bad"]),
+                    [(t["tok"].get("s") or t["tok"]["t"]) + ("/" + t["tok"]["k"] if t["tok"].get("k") == "bad" else "")
+                     for t in mm["trace"] if t["tok"]["t"] in ("DG", "MR", "EOF")], vf.canon(mm["trace"][-1]["real_t"])), mm)
+            else:
+                drift.append(mm)
     ntr = 150 if ctx.quick() else 4000
     tsum, tr, v = S.trace_check(ctx, "TestZZVUdpTrace", "socks5", HF, {"ZZV_TRACES": ntr}, "c22trace")
     for x in tr.of("violation"):
